@@ -12,7 +12,7 @@ MODULES = {
     "C04": _CODECS + _API + _FL,
     "C05": _CODECS + _FL,
     "C06": ["contracts.c06_crc"] + _SOCK,
-    "C07": _SOCK,
+    "C07": _SOCK + ["contracts.api_zone", "contracts.api_ac"],  # setters: what an encoder may raise is what the drain catches
     "C08": _HB + ["contracts.sock_conn", "contracts.api_airtouch"],
     "C09": _API,
     "C10": _API + _FL,
@@ -24,7 +24,7 @@ MODULES = {
     "C16": _SOCK,
     "C17": _CODECS + _SOCK + ["contracts.comms_registry"],
     "C18": ["contracts.discovery"],
-    "C19": _API + ["contracts.discovery"] + _FL,
+    "C19": _API + ["contracts.discovery", "contracts.at4_ext_timer", "contracts.at5_ctrl_status"] + _FL,  # registration tables: the same API call reaches the same message type on both wires
 }
 for _p in ("C01", "C02", "C04", "C06", "C08", "C09", "C11", "C12", "C13", "C14", "C15", "C16", "C17", "C18", "C19"):
     MODULES[_p] = MODULES[_p] + _LIB
